@@ -3026,6 +3026,9 @@ class MNOT(M_Pattern_One):
 
             return ASTS_LEAF__ALL
 
+        if not isinstance(p, type) and (not isinstance(p, MTYPES) or p.fields):  # `leaf_asts` is only an upper bound of what `p` matches unless `p` is a pure type test, and the complement of an upper bound is not an upper bound for the negation
+            return ASTS_LEAF__ALL
+
         elif len(leaf_asts) >= _LEN_ASTS_LEAF__ALL:  # >= because maybe some extra node types got in there from the future
             return _EMPTY_SET
 
